@@ -157,6 +157,8 @@ vfps::ElectricField::updateCSR( const frequency_t cutoff_frequency)
         {
             // copy bunch profile to be padded
             auto bp = _phasespace->getProjection(0)[n];
+            // buffer is shared with padBunchProfiles(): clear what it left behind
+            std::fill_n(_bp_padded,_nmax,static_cast<integral_t>(0));
             std::copy_n(bp.origin(),PhaseSpace::nx,_bp_padded);
 
             //FFT charge density
@@ -255,6 +257,8 @@ vfps::meshaxis_t *vfps::ElectricField::wakePotential()
 void vfps::ElectricField::padBunchProfiles()
 {
     auto bp= _phasespace->getProjection(0);
+    // clear remains of earlier calls (updateCSR() uses the same buffer)
+    std::fill_n(_bp_padded,_nmax,static_cast<integral_t>(0));
     for (uint32_t b=0; b<PhaseSpace::nb; b++) {
         std::copy_n( bp.origin()+b*PhaseSpace::nx
                    , PhaseSpace::nx
